@@ -455,6 +455,33 @@ theorem text_null_search (bs : Bits) (unit : Nat) (hu : 0 < unit) (fuel off r : 
     ∀ k, off + k * unit < r → ofBitsBE (slice bs (off + k * unit) unit) ≠ 0 :=
   findZeroUnit_spec bs unit hu fuel off r h
 
+/-- NO SCAN LIMIT: a UTF-8 null-terminated string of ANY length n (no zero byte inside), at any
+    alignment, with anything after it, is read completely: the frame is exactly the n bytes and the
+    position is after the terminator, 8·(n+1) bits on.  (A reader that gives up after 64 KiB and
+    returns "" falsifies this at n = 65536.) -/
+theorem text_null_unbounded (txt : List Nat) (h : ∀ b ∈ txt, 0 < b ∧ b < 256) (pre rest : Bits) :
+    tryTextNullFrame (pre ++ bitsOfBytes (txt ++ [0]) ++ rest) pre.length 1
+      = .ok txt (pre.length + 8 * (txt.length + 1)) := by
+  have hf := findZeroUnit_text txt pre rest ((pre ++ bitsOfBytes (txt ++ [0]) ++ rest).length + 1) h
+    (by simp only [List.length_append, bitsOfBytes_len, List.length_cons, List.length_nil]; omega)
+  have hfound := textNull_found _ pre.length 1 _ (by decide) (by simpa using hf)
+  rw [hfound]
+  have e1 : pre.length + 8 * txt.length - pre.length = 8 * txt.length := by omega
+  have e2 : 8 * txt.length / 8 = txt.length := by omega
+  rw [e1, e2]
+  have hsl : slice (pre ++ bitsOfBytes (txt ++ [0]) ++ rest) pre.length (8 * (txt.length + 1)) = bitsOfBytes (txt ++ [0]) := by
+    have := slice_mid pre (bitsOfBytes (txt ++ [0])) rest
+    rwa [bitsOfBytes_len, List.length_append, List.length_cons, List.length_nil] at this
+  have hb : ∀ b ∈ txt ++ [0], b < 256 := by
+    intro b hb
+    rcases List.mem_append.mp hb with h1 | h1
+    · exact (h b h1).2
+    · simp at h1; omega
+  rw [hsl, byteVals_bitsOfBytes _ hb]
+  congr 1
+  · simp
+  · omega
+
 /-- missing terminator: error and the position is restored -/
 theorem text_null_missing (bs : Bits) (pos cb : Nat) (hcb : 1 ≤ cb)
     (hf : findZeroUnit bs (8 * cb) (bs.length + 1) pos = none) :
